@@ -5,71 +5,71 @@ ROOT = os.path.dirname(os.path.dirname(os.path.abspath(__file__)))
 ALL = ["C%02d" % i for i in range(1, 21)]
 CHECKS = {
  "C01": dict(level="model_checking", tech="stateless choice-tree exploration (deviation-bounded, exhaustive) of comment/blank-line insertions into corpus templates; real decorate/restore run on every distinct canonical input",
-   text="Every gofmt-canonical file obtainable from the corpus templates by at most k (quick 2, thorough 3) insertions from the comment/newline alphabet round-trips byte for byte through all public entry points, except the inputs matching the listed known findings. Exhaustive within that bound; says nothing beyond the alphabet and templates.",
+   text="Every gofmt-canonical file obtainable from the 59 corpus templates by at most k (quick 2, thorough 3) insertions from the comment/newline alphabet round-trips byte for byte through all public entry points (Parse+Fprint, Decorator+Restorer on a shared FileSet, helpers, named FileRestorer, Restorer with Extras, one Restorer restoring two files before printing, ParseFile modes, ParseDir next to a long sibling file), except the inputs matching the listed known findings. Exhaustive within that bound; says nothing beyond the alphabet and templates.",
    note="trusts go/format as the definition of canonical form; known layout findings are attributed by exact deviation signatures (known_findings.json)", ref="DESIGN.md §4 C01"),
  "C03": dict(level="model_checking", tech="choice-tree exploration of non-canonical inputs (whitespace/comment alphabet x whole-file transforms), token-stream and comment oracle against gofmt",
-   text="For every parseable candidate obtainable from the templates by <=1 insertion from an 11-letter alphabet under 6 whole-file transforms (CRLF, BOM, spaces, no indentation...) and <=2 insertions from a 3-letter alphabet, the printed output parses, has gofmt's token stream and the input's comments in gofmt's order (whitespace aside).",
+   text="For every parseable candidate obtainable from the templates by <=1 insertion from an 11-letter alphabet under 6 whole-file transforms (CRLF, BOM, spaces, no indentation...), a line directive with every line number, <=2 insertions from a 3-letter alphabet, and every hanging-indent comment vector, the printed output parses, has gofmt's token stream and the input's comments in gofmt's order (whitespace aside), and does not depend on where the file sits in the restorer's FileSet.",
    note="go/scanner defines the token stream; comment texts are compared with whitespace removed; three narrowly signed known findings (gofmt output that does not re-parse; directive placement)", ref="DESIGN.md §4 C03"),
  "C05": dict(level="model_checking", tech="exhaustive enumeration of spacing/decoration vectors on hand-built trees against a line-break ledger model, both sides through gofmt",
-   text="For 8 list kinds and 3 elements, all 729 Before/After assignments crossed with all Start/End decoration assignments (<=2 non-empty quick, <=3 thorough) print with the line structure of the text the non-additive rule denotes.",
+   text="For 13 list kinds (including raw-string elements and path-carrying identifiers under import management) and 3 elements, all 729 Before/After assignments crossed with all Start/End decoration assignments (<=2 non-empty quick, <=3 thorough) print with the line structure of the text the non-additive rule denotes.",
    note="indentation is not compared here (C01/C02 do); go/format normalises both sides", ref="DESIGN.md §4 C05"),
  "C06": dict(level="model_checking", tech="exhaustive enumeration of node instances and (node, slot) pairs with reflection-based completeness/aliasing/mutation oracles",
-   text="Every node instance of the corpus (plain and with every decoration point filled) is cloned and compared field by field, checked for storage disjointness and mutation independence and for identical printing when substituted; every class of (node, compatible slot) pair is built shared (must panic 'duplicate node') and cloned (must print both).",
+   text="Every node instance of the corpus (plain and with every decoration point filled, in use or not) is cloned and compared field by field, checked for storage disjointness and mutation independence and for identical printing when substituted (also under import management); every class of (node, compatible slot) pair is built shared (must panic 'duplicate node') and cloned (must print both).",
    note="reflection sees all state because dst nodes have only exported fields", ref="DESIGN.md §4 C06"),
  "C08": dict(level="model_checking", tech="choice-tree exploration of import-bearing templates x resolver pairs on a typed in-memory world",
-   text="Every canonical variant (<=2 insertions, including around the dot of qualified identifiers) of 13 import-bearing templates is decorated with goast/gotypes resolvers and restored with guess/simple/map resolvers: bytes unchanged and path annotations stable under re-decoration.",
+   text="Every canonical variant (<=2 insertions, including around the dot of qualified identifiers) of 15 import-bearing templates is decorated with goast/gotypes resolvers and restored with guess/simple/map/gobuild resolvers: bytes unchanged and path annotations stable under re-decoration; every ordered template pair through one shared goast resolver.",
    note="only resolver pairs that name every package correctly are in the quantifier; inputs whose plain round trip is not byte-exact are left to C01", ref="DESIGN.md §4 C08"),
  "C11": dict(level="model_checking", tech="exhaustive enumeration of corpus variants x resolver, map laws checked by reflection against ast.Inspect",
-   text="For every corpus file and every <=1-insertion variant, with and without a resolver, Decorator.Map and Restorer.Map are total, typed, in-tree, mutually inverse (collapsed selectors excepted) and commute with every parent/child edge.",
+   text="For every corpus file and every <=1-insertion variant, with and without a resolver, Decorator.Map and Restorer.Map are total, typed, in-tree, mutually inverse (collapsed selectors excepted) and commute with every parent/child edge; also for file pairs through one Restorer and for the package entry point.",
    note="children are found by reflection over Node-typed fields", ref="DESIGN.md §4 C11"),
  "C12": dict(level="model_checking", tech="exhaustive enumeration of parsed/decorated/edited trees and file sequences; reflection over every token.Pos of the restored ast",
-   text="Every restored ast (parsed variants, every single decoration at every point, filled decorations, list edits, Extras on/off, sequences of 2-3 files in one FileSet) has all positions inside its one file, disjoint files, strictly increasing lines, sorted comments, and the same position order (including coincidences) as a fresh parse of its printed text.",
+   text="Every restored ast (parsed variants, every single decoration at every point, filled decorations, list edits, Extras on/off, sequences of 2-3 files in one FileSet with fresh or reused FileRestorer, import-managed restores with imports kept / recreated / renamed / added) has all positions inside its one file, disjoint files, strictly increasing lines, sorted comments, and the same position order (including coincidences) as a fresh parse of its printed text.",
    note="comment-vs-token order is only required for decorations the decorator placed itself; printed with go/printer using gofmt settings", ref="DESIGN.md §4 C12"),
  "C13": dict(level="model_checking", tech="exhaustive enumeration of pruning predicates per tree; reference traversal by reflection and go/ast.Inspect twin",
-   text="For every corpus tree: full traversal, pruning at each single node, pruning by each node type, removal of each optional child, a visitor-per-subtree Walk, and a 3-file Package agree with the reflection-derived traversal and with go/ast.Inspect of the original ast.",
+   text="For every corpus tree: full traversal, pruning at each single node (thorough: each pair), pruning by each node type, removal of each optional child and of all at once, traversal rooted at every inner node, a visitor-per-subtree Walk, and a 3-file Package agree with the reflection-derived traversal and with go/ast.Inspect of the original ast.",
    note="go/ast of this toolchain is the reference order", ref="DESIGN.md §4 C13"),
  "C15": dict(level="model_checking", tech="exhaustive enumeration of truncations, byte edits, token edits of the corpus and of all short lexeme strings; panic oracle",
-   text="No prefix, suffix, single-byte insertion/substitution (20-byte alphabet), token deletion/duplication/swap, pair of token deletions of any corpus file, nor any string of <=5 lexemes over a 20-lexeme alphabet makes Parse/ParseFile/Fprint panic.",
+   text="No prefix, suffix, single-byte insertion/substitution (20-byte alphabet), token deletion/duplication/swap, pair of token deletions of any corpus file, nor any string of <=5 lexemes over a 20-lexeme alphabet makes Parse/ParseFile (4 modes)/ParseDir (plain and through a Decorator with goast)/Fprint panic.",
    note="a worker crash (fatal error) is itself reported as a violation", ref="DESIGN.md §4 C15"),
  "C19": dict(level="model_checking", tech="explicit-state BFS over operation histories against a []string reference model",
-   text="All histories of Append/Prepend/Replace/Clear with 6 argument shapes from 3 initial lists to depth 7 (quick) / 10 (thorough): All() equals the model, caller slices are never modified or retained, and the rendered comments equal All().",
+   text="All histories of Append/Prepend/Replace/Clear with 6 argument shapes from 3 initial lists to depth 7 (quick) / 10 (thorough): All() equals the model, caller slices are never modified or retained, earlier All() results keep their contents, and the rendered comments (plain and on a path-carrying identifier) equal All().",
    note="states merged by (relabelled contents, spare capacity): the methods never inspect string values", ref="DESIGN.md §4 C19"),
 }
 
 CHECKS.update({
  "C02": dict(level="model_checking", tech="explicit-state BFS over list-edit histories on real trees (fresh parse + replay per state) against a text-chunk reference model",
-   text="For 9 list kinds, two lists of 3+2 differently shaped elements, 6 comment configurations per element and newline/blank/inline separators, every history of swap/delete/duplicate-with-Clone/move-to-other-list up to depth 1 (all layouts) and 2 (36 layouts per kind; thorough 3) prints exactly gofmt of the text whose chunks were edited the same way.",
+   text="For 9 list kinds, two lists of 3+2 differently shaped elements, 7 comment configurations per element and newline/blank/inline separators, every history of swap/delete/duplicate-with-Clone/move-to-other-list up to depth 1 (all layouts) and 2 (uniform layouts; thorough 2 / 3) prints, plainly and through a Restorer with Extras, exactly gofmt of the text whose chunks were edited the same way.",
    note="layouts whose neighbours would not all be separated alike are outside the quantifier (counted); inline leading comments and comments inside import specs are outside the chunk definition", ref="DESIGN.md §4 C02"),
  "C04": dict(level="model_checking", tech="exhaustive enumeration of point subsets on the documented examples plus a structural rule on every corpus node instance; token+comment sequence oracle",
-   text="For each of the 70 documented examples every subset of <=2 points (thorough: all subsets) x {block, line, newline} placed directly on the node prints where the documentation shows it (block) / exactly once with unchanged tokens (line, newline); for every node instance of the corpus every point singly and all points together obey: exactly once, Start before the first token, End after the last (before the next separately emitted token), points in order; helper and accessor laws for every node type.",
+   text="For each of the 70 documented examples every subset of <=2 points (thorough: all subsets) x {block, line, newline} placed directly on the node prints where the documentation shows it (block) / exactly once with unchanged tokens (line, newline); for every node instance of the corpus every point singly, with two comments, all points of the node and all points of all nodes together obey: exactly once, Start before the first token, End after the last (before the next separately emitted token), points in order; Extras/clone mode; helper and accessor laws for every node type.",
    note="the documentation is the snapshot of gendst/data/positions.go; ',' and ';' are ignored when locating comments", ref="DESIGN.md §4 C04"),
  "C07": dict(level="model_checking", tech="exhaustive enumeration of import configurations; independent import-table oracle on the re-parsed output plus go/types",
-   text="Every configuration of (used-path set, existing import shape, alias override, resolver map, local path) over a 5-path universe is restored with import management and judged by an oracle that does not share code with updateImports: reference binding, exact import set, distinct names, alias preference, order/comments when nothing is added, repeatability, type-checks.",
+   text="Every configuration of (used-path set, 12 existing import shapes, one or two simultaneous alias overrides, resolver map, local path) over a 5-path universe is restored with import management and judged by an oracle that does not share code with updateImports: reference binding, exact import set, distinct names, alias preference, order/comments when nothing is added, type-checks.",
    note="references are identified by package-specific names (Fi/Ti/Vi); gofmt's own import sorting is accounted for when judging order", ref="DESIGN.md §4 C07"),
  "C09": dict(level="model_checking", tech="exhaustive enumeration of generated type-correct programs; oracle computed from go/types",
-   text="For 5 dependency paths (plain, dotted, vendored, nested-vendored, root vendor) x 3 import styles x a 28-role catalogue (singly and in ordered pairs) x shadowing modes, every identifier's path from the types-based resolver equals the classification computed from go/types; the syntax-based resolver agrees or errors where it must.",
+   text="For 5 dependency paths (plain, dotted, vendored, nested-vendored, root vendor) x 3 import styles x a 28-role catalogue (singly and in ordered pairs) x shadowing modes x 3 locations of the local package, every identifier's path from the types-based resolver equals the classification computed from go/types; the syntax-based resolver agrees or errors where it must, also when asked again.",
    note="only files that type-check are in the quantifier", ref="DESIGN.md §4 C09"),
  "C10": dict(level="model_checking", tech="exhaustive enumeration of (source styles, target styles, item, used set, move history) on typed worlds; go/types acceptance oracle",
-   text="Every combination of source import styles, target import styles (absent/plain/alias/dot), moved item (function, function using a source-local function, variable, statement), dependency subset and history (single, chain, two items, back, clone) yields a target that type-checks with every moved reference denoting the same package-level object.",
+   text="Every combination of source import styles, target import styles (absent/plain/alias/dot/alias equal to another package's name; optionally dot-importing a package with clashing names), moved item (function, function using a source-local function, variable, statement), dependency subset and history (single, chain, two items, back, clone, one FileRestorer reused for source and target) yields a target that type-checks with every moved reference denoting the same package-level object.",
    note="type-incorrect source/target files are outside the quantifier (counted)", ref="DESIGN.md §4 C10"),
  "C14": dict(level="model_checking", tech="choice-tree exploration of cursor scripts driving dstutil.Apply and x/tools astutil.Apply on twin trees",
-   text="For 15 sources covering every list field plus a 3-file package, every 1-site script over 22 actions and every 2-site script over the 6 basic actions (thorough: 2 sites x 22, 3 sites x 6) produces identical callback logs, panics and final trees in dstutil.Apply and astutil.Apply, and Parent/Name/Index locate Node at every callback.",
+   text="For 15 sources covering every list field plus a 3-file package and three non-file roots, every 1-site script over 22 actions and every 2-site script over the 6 basic actions (thorough: 2 sites x 22, 3 sites x 6) produces identical callback logs, panics and final trees in dstutil.Apply and astutil.Apply, and Parent/Name/Index locate Node at every callback.",
    note="astutil v0.1.12 is the reference; its Doc/Comment callbacks and nil TypeParams callbacks are normalised away", ref="DESIGN.md §4 C14"),
- "C17": dict(level="fault_enumeration", tech="fault-position enumeration with the choice-tree explorer (a failing resolver call is a deviation), histories of up to two failures then success",
-   text="For every import-bearing template and 8 entry configurations, every position of the resolver call sequence is failed once and in pairs (fail, retry-fail, retry): error wraps the injected one, no panic, no output, no tree, input unchanged, final retry equals the failure-free result.",
+ "C17": dict(level="fault_enumeration", tech="fault-position enumeration with the choice-tree explorer (a failing resolver call is a deviation), histories of up to three (thorough four) failures then success",
+   text="For every import-bearing template (forward references included) and 8 entry configurations, every position of the resolver call sequence is failed in histories of up to three (thorough: four) failures before the retry: error wraps the injected one, no panic, no output, no tree, input unchanged, final retry equals the failure-free result.",
    note="map orders that decide which path is resolved k-th are left to C16", ref="DESIGN.md §4 C17"),
  "C18": dict(level="model_checking", tech="exhaustive enumeration of object-rich sources and file subsets; graph-isomorphism oracle by reflection and differential against go/ast.NewPackage",
-   text="For 15 object-rich sources and the whole corpus the decorator's and the Extras-restorer's object/scope/node maps are graph isomorphisms; for every subset of <=3 files of a 10-file pool x importer x universe, dst.NewPackage agrees with go/ast.NewPackage on scope, errors, remaining unresolved names and resolutions.",
+   text="For 15 object-rich sources and the whole corpus the decorator's and the Extras-restorer's object/scope/node maps are graph isomorphisms, also across files decorated one at a time and for isolated declarations; for every subset of <=4 files of a 10-file pool x importer x universe, dst.NewPackage agrees with go/ast.NewPackage on scope, errors, remaining unresolved names and resolutions.",
    note="for names declared twice only the name (not the surviving kind) is compared, since file order is a map order on both sides", ref="DESIGN.md §4 C18"),
  "C20": dict(level="fault_enumeration", tech="exhaustive enumeration of package shapes and edit assignments on a real temporary directory, crossed with every failing resolver call (choice tree)",
-   text="For packages of 1-3 files in 1-2 directories next to unrelated files, every edit assignment and every single resolver failure: SaveWithResolver creates/removes nothing, writes exactly the import-managed print of each file, leaves unedited files byte-identical and, on failure, returns the error and leaves the failing and all later files untouched.",
+   text="For packages of 1-3 files (8 sources incl. dot-import and leading line directive) in 1-2 directories next to unrelated files, every edit assignment and every single resolver failure: SaveWithResolver creates/removes nothing, writes exactly the import-managed print of each file, leaves unedited files byte-identical and, on failure, returns the error and leaves the failing and all later files untouched.",
    note="decorator.Load (go/packages) is not exercised; packages are hand-built with the fields Load fills", ref="DESIGN.md §4 C20"),
 })
 
 
 CHECKS.update({
  "C16": dict(level="model_checking", tech="stateless model checking under a controlled scheduler (preemption-bounded, all interleavings at hooked operations) with a vector-clock happens-before race detector; explorer-controlled map iteration orders; free-running go -race pass as supplement",
-   text="On sources instrumented at check time, 2 (quick) / 3 (thorough) goroutines decorating and restoring different files while sharing one goast resolver (4 sharing scenarios) are run through every interleaving with <=2 (3) preemptions: no unordered conflicting access, no deadlock, no panic, results equal the sequential ones; 8 sequential scenarios are run under every single (pair of) non-default map iteration order with identical output; the same bodies run free under the Go race detector.",
+   text="On sources instrumented at check time, 2 (quick) / 3 (thorough) goroutines decorating and restoring different files while sharing one goast resolver (4 sharing scenarios) are run through every interleaving with <=3 preemptions: no unordered conflicting access, no deadlock, no panic, results equal the sequential ones; 11 sequential scenarios are run under every single (pair of) non-default map iteration order with identical output; the same bodies run free under the Go race detector.",
    note="scheduling points are the hooked operations only (sync primitives, package-level variables, resolver state); reads of locations never written are not scheduling points (discovery pass, re-checked at run time); other memory is covered by the -race pass only", ref="DESIGN.md §3.3, §4 C16"),
 })
 
